@@ -45,6 +45,12 @@ CLAIMS = {
  "C17": ("call-graph effect confinement (which calls can reach a bowl write or pool read), transitive control-dependence of the skip decision on the whitelist lookup, sibling agreement of message types read by the skip and process paths with generated-struct-tag aliasing check, must-assign path rule (go/ssa)",
          "Decides structural necessary conditions, not the behaviour: bowl writes/transposes and old-build pool reads are reachable from Resume only through processFile and never from skipFile; skipping is decided by the whitelist lookup keyed by the checked header index and is exclusive with processing; the skip path decodes every series message type with its own type (or one that cannot alias the end marker); the series kind skipFile dispatches on is assigned from the header just read. Equality of the selected files with full application is NOT decided.",
          "DESIGN.md 4 (C17)"),
+ "C15": ("fork-site access-set analysis (captured variables, field paths, callee effect summaries through closures and maker functions, must-locksets, per-iteration variables, fork/join regions), natural-loop map-order rule, single-sender/token shape rules, forward slicing of ambient values (go/ssa + CHA)",
+         "Decides structural necessary conditions, not byte-identical output: at the differ's four fork sites no two concurrent units (or instances, or a unit and the parent before the join) touch overlapping locations with a write and no common lock; ranges over maps on the diff/optimize call tree have order-insensitive bodies; matches reach the bsdiff writer through one sender in token-passing order; time/CPU-count/GOMAXPROCS/random values reach only statistics and diagnostics. Slice-element races, races inside dependencies and short-read independence are NOT decided.",
+         "DESIGN.md 3.2, 4 (C15)"),
+ "C19": ("fork-site access-set analysis with file pseudo-variables and must-locksets, per-path result-send counting (go/ssa)",
+         "Decides structural necessary conditions, not tree equality: ExtractZip's workers (concurrent instances of one goroutine) and the parent before the join share no location with a write and no common lock (entry counters, progress, flags); the resume file is written only under one lock common to all write sites; every worker sends exactly one result on every path into a channel buffered for all workers and the parent collects them. Whether the marker value is a contiguous high-water mark is value-level and NOT decided (a seeded change of that kind is recorded as missed).",
+         "DESIGN.md 3.2, 4 (C19)"),
  "C16": ("channel-protocol shape rules over go/ssa: per-path send counting (defers included), edge-dominance of loop exits by channel-closed tests, dominance ordering of the shutdown sequence, select-case control dependence",
          "Decides structural necessary conditions, not the behaviour: the consumer goroutine drains the wound channel until closed; worker and consumer each send exactly one result on every path; every result-receiving select case re-puts and closes 'cancelled', which is closed nowhere else; the shutdown sequence dominates the return in order; relay/aggregation goroutines exit only on close and always signal; the fail-fast consumer never returns nil from its cancellation case. These quantify over all paths of the protocol code, which no schedule sample can; full deadlock freedom over all interleavings is NOT decided.",
          "DESIGN.md 4 (C16)"),
